@@ -444,10 +444,11 @@ class BuiltinModelLoaderGen(ModelLoaderGen):
             else:
                 state.builder += "pass"
 
-        if state.parent_path not in state.type_checked_type_paths:
-            with state.builder(f"except {bad_type_error}:"):
-                self._gen_raise_bad_type_error(state, bad_type_load_error, namer=state.parent)
-            state.type_checked_type_paths.add(state.parent_path)
+        # subscription of each element can reveal the bad type: an object can serve one key and fail with
+        # the error of the other container kind for the next one (e.g. sqlite3.Row raises IndexError for a missing column)
+        with state.builder(f"except {bad_type_error}:"):
+            self._gen_raise_bad_type_error(state, bad_type_load_error, namer=state.parent)
+        state.type_checked_type_paths.add(state.parent_path)
 
         self._gen_unexpected_exc_catching(state)
 
